@@ -61,6 +61,7 @@ def _expected_entry(node, typed):
         if custom_id:
             e["data_id"] = node.data_id
         e["type"] = d.typ
+        e["role"] = d.typ
         e["name"] = d.name
         if d.age is not None:
             e["age"] = d.age
@@ -192,6 +193,7 @@ def run_writer(case, res):
             vm = copy.deepcopy(sergen.VALUE_MAPS[case["vm"]])
             user_meta = {"foo": "bar"}
             fp = io.StringIO()
+            _opts_before = copy.deepcopy((km, vm))
             if case.get("reuse_meta"):
                 # an earlier save with the *same* meta dict and all maps on must not influence this one
                 t.save(io.StringIO(), meta=user_meta, key_map=sergen.key_map_for(case["flavour"], "custom"),
@@ -216,6 +218,8 @@ def run_writer(case, res):
             else:
                 t.save(fp, meta=user_meta, key_map=km, value_map=vm, **save_kw)
             doc = json.loads(fp.getvalue())
+            if (km, vm) != _opts_before:
+                bad.append(f"save() wrote into the caller's key_map / value_map object: {km!r} / {vm!r}")
             eff_km = type(t).DEFAULT_KEY_MAP if km is True else ({} if km is False else km)
             if vm is True:
                 vkeys = set(type(t).DEFAULT_VALUE_MAP)
